@@ -7,7 +7,6 @@ import (
 	"github.com/bmeg/grip/gdbi"
 	"github.com/bmeg/grip/gripql"
 	"github.com/bmeg/grip/util/setcmp"
-	"github.com/bmeg/jsonpath"
 )
 
 func TabularOptimizer(pipe []*gripql.GraphStatement) []*gripql.GraphStatement {
@@ -103,10 +102,11 @@ func (t *tabularEdgeHasLabelProc) Process(ctx context.Context, man gdbi.Manager,
 					if setcmp.ContainsString(t.labels, edge.config.Label) {
 						for row := range t.graph.client.GetRows(ctx, edge.config.Data.Source, edge.config.Data.Collection) {
 							data := row.Data.AsMap()
-							if rowSrc, err := jsonpath.JsonPathLookup(data, edge.config.Data.FromField); err == nil {
-								if rowSrcStr, ok := rowSrc.(string); ok {
-									if rowDst, err := jsonpath.JsonPathLookup(data, edge.config.Data.ToField); err == nil {
-										if rowDstStr, ok := rowDst.(string); ok {
+							//the mapping names plain fields, as GetEdgeList reads them; rows without both endpoints are not edges
+							if rowSrcStr, err := getFieldString(data, edge.config.Data.FromField); err == nil {
+								if rowSrcStr != "" {
+									if rowDstStr, err := getFieldString(data, edge.config.Data.ToField); err == nil {
+										if rowDstStr != "" {
 											o := gdbi.Edge{
 												ID:     edge.GenID(rowSrcStr, rowDstStr), //edge.prefix + row.Id,
 												To:     edge.config.To + rowDstStr,
